@@ -91,7 +91,7 @@ CLAIMS = {
               'truncated == None => n == |F| and no file-system event; truncated == Some(|F|) => truncation enabled and exactly [SetLen(n), SyncAll] happened; truncation disabled => no SetLen/SyncAll event on any exit; '
               'verify_trailing_zeros answers exactly "all bytes from start are zero" (loop invariant, short reads, termination); handle_record_error: UnexpectedEof + enabled => truncate; disabled => Err; '
               'RaftLog::open creates the fresh chunk exactly at the last complete record of a truncated newest chunk. '
-              'Not decided: maximality ("longest complete prefix") needs the completeness half of the codec; crc(0..0) != 0 is assumed.'),
+              'Maximality: when Chunk::open truncates at n, the parse function fails on the bytes from n on (cut_is_maximal), hence no encoded record starts there (lemma_c10_no_record_where_parsing_fails, contrapositive of the round trip): the kept prefix is the longest run of complete valid records.'),
         note=TRUST + ' File content is the content at open time (recovery reads before it truncates); pread/BufReader contracts assumed; rule E7 desugars the two for-loops.',
         technique='Verus loop invariants over a ghost file content + ghost event trace, on extracted code',
         design='5 C10',
@@ -109,8 +109,10 @@ CLAIMS = {
         text=('Unbounded deductive proof (Verus) on the four codec functions extracted from the working tree, generic in the reader/writer and in T: Types: WALRecord::encode and RaftLogState::encode append exactly enc(self) '
               '(tag, fields in declaration order, checksum of tag+fields / version byte 1 and the five optional fields) and report its length; WALRecord::decode and RaftLogState::decode are sound: Ok(v) => the bytes consumed are exactly enc(v), '
               'nothing beyond is consumed, the reader position advances by |enc(v)|; no arithmetic overflow or panic in any of them (decode of arbitrary bytes is total). '
-              'Not decided in this revision: completeness (decode(enc(v)) == Ok(v)), hence the round trip itself rests on (S) + the assumed injectivity of the field codecs.'),
-        note=TRUST + ' Assumed dependency contracts: codeq u8/Option codecs and ChecksumReader/Writer, byteorder read_/write_u32, the user codecs of LogId/Vote/Payload/UserData (sound, lengths < 2^56); readers/writers by-value with prophecy variables.',
+              'Completeness, function-against-spec-function: both decoders ARE the parse function `dec` of the remaining bytes (Ok iff dec is Some, and then they return dec\'s value and consume dec\'s length), '
+              'dec is written from the format (tag, fields of that tag, checksum over tag+fields; version byte 1 and five optional fields), and the round-trip law dec(enc(v) ++ rest) == Some((v, |enc(v)|)) is PROVED for WALRecord, RaftLogState, u8 and Option<T> '
+              '(lemma_c12_round_trip), so decode(encode(v)) == v consuming exactly the bytes written, for every v and whatever follows.'),
+        note=TRUST + ' Assumed dependency contracts: codeq u8/Option codecs and ChecksumReader/Writer, byteorder read_/write_u32, the user codecs of LogId/Vote/Payload/UserData (sound; their own round-trip law dec(enc(x) ++ rest) == Some(x) is ASSUMED; lengths < 2^56); I/O errors of the underlying reader are not modelled in the codec contracts (byteorder/codeq/user codecs fail only for what the bytes are); crc is an uninterpreted function of the bytes; readers/writers by-value with prophecy variables.',
         technique='Verus contracts against a spec encoding function, prophecy-based reader/writer stand-ins, on extracted code',
         design='5 C12',
     ),
